@@ -576,7 +576,9 @@ func (w *Worker) RunCase(cs *Case, rep *Report) {
 			if r.Outcome == interp.PathTargetPanic {
 				rep.note(fmt.Sprintf("case %s: target panic: %s", cs.Name, r.Msg))
 			}
-			if r.Outcome == interp.PathInconclusive && cs.Prog.Atoms.Coded && !cs.noEscalation && strings.Contains(r.Msg, "Int-coded atom") {
+			// (only for small skeletons: with dozens of SMT-string names the
+			// string queries are too slow to be worth it)
+			if r.Outcome == interp.PathInconclusive && cs.Prog.Atoms.Coded && !cs.noEscalation && strings.Contains(r.Msg, "Int-coded atom") && cs.Prog.Atoms.identCount() <= 12 {
 				needStrings = true
 			}
 			if (r.Outcome == interp.PathInconclusive || r.Outcome == interp.PathTargetPanic || r.Outcome == interp.PathFuel) && !stopped {
